@@ -253,6 +253,8 @@ def build(repo):
                                            ('(C10 a) a SUCCESS exit at x0 returns an objective (sum of squares of the averaged residual plus h(x0)) that passed the abs_tol test:: '
                                             'implies(result[8].flag == EXIT_SUCCESS, LEQ(result[2], params("model.abs_tol")) and '
                                             'result[2] == ite(isnone(h), SUMSQ(result[1]), ADDV(SUMSQ(result[1]), HVAL(RS(x0)))) and result[1] == MEANV(rvec_list, num_samples_run))', 'C10', 'C06'),
+                                           ('(C03) at the x0 exit soln.obj is sum(resid^2) + h(x0) of the returned (averaged) residual:: '
+                                            'result[2] == ite(isnone(h), SUMSQ(result[1]), ADDV(SUMSQ(result[1]), HVAL(RS(x0)))) and result[1] == MEANV(rvec_list, num_samples_run)', 'C03'),
                                            ('no Jacobian at the x0 exit:: isnone(result[3])', 'C11')],
                         'break@while#0': [
                    ('trial point offered or NaN:: not G.pending or G.nanflag', 'C04', 'C08'),
